@@ -142,7 +142,7 @@ public:
   using const_iterator = std::const_iterator<iterator>;
   using const_reverse_iterator = std::const_iterator<reverse_iterator>;
 #else
-  using const_iterator = const iterator;
+  using const_iterator = const element_type*;
   using const_reverse_iterator = std::reverse_iterator<const_iterator>;
 #endif
 
